@@ -39,6 +39,21 @@ def fick_shape(interp, MarkObject):
     return len(st), marks, set(interp.memory)
 
 
+class _MemoWatch:
+    """Memo key sets only ever grow: the full comparison is needed only when a size changed."""
+
+    def __init__(self):
+        self.sizes = (-1, -1)
+        self.equal = True
+
+    def same(self, fmem, vmem):
+        sizes = (len(fmem), len(vmem))
+        if sizes != self.sizes:
+            self.sizes = sizes
+            self.equal = sizes[0] == sizes[1] and set(fmem) == set(vmem)
+        return self.equal
+
+
 def observe(data, want_exec=True):
     f = fickle()
     o = Obs(data)
@@ -55,6 +70,7 @@ def observe(data, want_exec=True):
     fick_done = False
     o.fick_steps = 0
     o.lock_steps = 0
+    memo_watch = _MemoWatch()
     i = 0
     while (vm_alive and not vm.done) or (fick_alive and not fick_done):
         stepped_vm = stepped_f = False
@@ -85,9 +101,13 @@ def observe(data, want_exec=True):
                 o.fick_err, o.fick_stage, fick_alive = e, "interpret", False
         if stepped_vm and stepped_f and o.lock_div is None:
             o.lock_steps += 1
-            d, m, k = fick_shape(interp, f.MarkObject)
-            vd, vmk, vk = vm.depth(), vm.marks(), vm.memo_keys()
-            if d != vd or m != vmk or k != vk:
+            st = interp.stack
+            d, vd = len(st), vm.depth()
+            vmk = vm.marks()
+            m = [j for j, x in enumerate(st) if isinstance(x, f.MarkObject)] if (vmk or d != vd or d < 64) else \
+                ([] if not any(isinstance(x, f.MarkObject) for x in st) else [j for j, x in enumerate(st) if isinstance(x, f.MarkObject)])
+            if d != vd or m != vmk or not memo_watch.same(interp.memory, vm.memo):
+                k, vk = set(interp.memory), vm.memo_keys()
                 o.lock_div = {"index": i, "op": o.ops[i] if o.ops and i < len(o.ops) else "?",
                               "fick": [d, m, sorted(k)], "vm": [vd, vmk, sorted(vk)],
                               "fick_noop": before == (len(interp.stack), len(interp.memory),
